@@ -20,6 +20,107 @@ func appendChain(t *core.Term) (base *core.Term, parts []*core.Term) {
 	return t, parts
 }
 
+// layElem is one piece of a frame laid out in a buffer: a single byte, the
+// 4-byte mask key, or the payload argument.
+type layElem struct {
+	kind string // "byte", "key", "data"
+	t    *core.Term
+}
+
+// indexedLayout reads the layout of a frame built in a make'd buffer by
+// indexed stores and copy calls: buf[0], buf[1], (copy(buf[2:6], key[:]) or
+// four stores), copy(buf[P:], data), with len(buf) == P + len(data).
+func indexedLayout(p *core.Path, buf *core.Term, upTo int, dataP *ssa.Parameter) ([]layElem, bool) {
+	x := p.X
+	type cp struct {
+		lo   int64
+		kind string
+		t    *core.Term
+	}
+	var cps []cp
+	for k := 0; k < upTo; k++ {
+		e := &p.Events[k]
+		if e.Kind != core.EvCall || e.Builtin != "copy" || len(e.Args) != 2 || e.Args[0].Kind != core.KSlice || e.Args[0].Args[0] != buf {
+			continue
+		}
+		d := e.Args[0]
+		lo := int64(0)
+		if d.Args[1].Kind != core.KNone {
+			v, isC := x.StripWiden(d.Args[1]).Int64()
+			if !isC {
+				return nil, false
+			}
+			lo = v
+		}
+		src := e.Args[1]
+		switch {
+		case src.Kind == core.KParam && src.Ref == interface{}(dataP):
+			if d.Args[2].Kind != core.KNone {
+				return nil, false
+			}
+			cps = append(cps, cp{lo, "data", src})
+		case src.Kind == core.KSlice && src.Args[0].Kind == core.KAlloc:
+			if L, isC := x.Len(src).Int64(); !isC || L != 4 {
+				return nil, false
+			}
+			if d.Args[2].Kind != core.KNone {
+				if hi, isC := x.StripWiden(d.Args[2]).Int64(); !isC || hi != lo+4 {
+					return nil, false
+				}
+			}
+			var whole *core.Term
+			for j := 0; j < k; j++ {
+				if e2 := &p.Events[j]; e2.Kind == core.EvStore && e2.Addr == src.Args[0] {
+					whole = e2.Val
+				}
+			}
+			if whole == nil {
+				return nil, false
+			}
+			cps = append(cps, cp{lo, "key", whole})
+		default:
+			return nil, false
+		}
+	}
+	var lay []layElem
+	pos := int64(0)
+	for {
+		var at *cp
+		for k := range cps {
+			if cps[k].lo == pos {
+				at = &cps[k] // the last copy to this offset wins
+			}
+		}
+		if at != nil {
+			lay = append(lay, layElem{at.kind, at.t})
+			if at.kind == "data" {
+				break
+			}
+			pos += 4
+			continue
+		}
+		b := storedAt(p, buf, x.T.Int(pos), upTo)
+		if b == nil {
+			return nil, false
+		}
+		lay = append(lay, layElem{"byte", b})
+		pos++
+		if pos > 16 {
+			return nil, false
+		}
+	}
+	for _, c := range cps {
+		if c.lo > pos {
+			return nil, false
+		}
+	}
+	// the buffer ends with the payload
+	if d, isC := x.Bin(token.SUB, x.Len(buf), x.Len(x.ParamTerm(dataP)), types.Typ[types.Int]).Int64(); !isC || d != pos {
+		return nil, false
+	}
+	return lay, true
+}
+
 // controlHeader checks the frame built by WriteControl on every path that writes it.
 func (w *writerA) controlHeader(ruleHdr, ruleB0, ruleMask string) {
 	c, r := w.c, w.c.R
@@ -51,10 +152,7 @@ func (w *writerA) controlHeader(ruleHdr, ruleB0, ruleMask string) {
 			}
 			client := srvF
 			// flatten the appended parts into a byte layout: single bytes (variadic appends), a 4-byte key slice, the payload
-			type elem struct {
-				kind string // "byte", "key", "data"
-				t    *core.Term
-			}
+			type elem = layElem
 			var lay []elem
 			flat := true
 			for _, part := range parts {
@@ -93,6 +191,9 @@ func (w *writerA) controlHeader(ruleHdr, ruleB0, ruleMask string) {
 				default:
 					flat = false
 				}
+			}
+			if len(parts) == 0 && (buf.Kind == core.KMake || (buf.Kind == core.KSlice && buf.Args[0].Kind == core.KAlloc && buf.Args[1].Kind == core.KNone)) {
+				lay, flat = indexedLayout(p, buf, i, dataP)
 			}
 			if !flat || len(lay) < 3 || lay[0].kind != "byte" || lay[1].kind != "byte" {
 				ok, why = false, fmt.Sprintf("cannot identify the layout of the control frame (%d appended parts) on a %s path: want header bytes, key (client), payload", len(parts), map[bool]string{true: "client", false: "server"}[client])
